@@ -1,2 +1,62 @@
-(* C15 — the property theorems, and nothing else. *)
+(* C15 — the property theorems, and nothing else.  [run c (init c) ops] is the
+   state of the pool model after an arbitrary history [ops] (every operation
+   carries its own failure oracles, so histories range over all fault
+   sequences as well); [trace] is the observable trace of that history. *)
 From VF Require Import Pool.Model Pool.Spec Pool.Proofs.
+
+(* Storage sectors are partitioned: the sectors held by open files and by
+   direct allocator clients are pairwise distinct and within the device, the
+   allocator's bitmap marks exactly the others as free, and no allocator or
+   file panic (double free, replacing an existing sector) is reachable. *)
+Theorem sectors_partition : forall c ops, 0 < c_ss c ->
+  partition_ok c (run c (init c) ops).
+Proof. exact sectors_partition_lemma. Qed.
+Print Assumptions sectors_partition.
+
+(* After all files are closed (and direct allocations returned) every sector
+   is free again, whatever happened before, including failed operations. *)
+Theorem all_closed_all_free : forall c ops, 0 < c_ss c ->
+  let st := run c (init c) ops in
+  st_files st = repeat None nslots -> st_raw st = [] ->
+  a_free (st_al st) = repeat true (c_nsec c).
+Proof. exact all_closed_all_free_lemma. Qed.
+Print Assumptions all_closed_all_free.
+
+(* Quota is conserved after every history, including failed operations:
+   files remaining + open files = maximum, bytes remaining + sum of sizes = maximum. *)
+Theorem quota_conserved : forall c ops, 0 < c_ss c ->
+  let st := run c (init c) ops in
+  (st_remf st + nopen (st_files st) = c_maxfiles c)%N /\
+  (st_remb st + sizes (st_files st) = c_maxbytes c)%N.
+Proof. exact quota_conserved_lemma. Qed.
+Print Assumptions quota_conserved.
+
+(* The quota predicate that Corr.v evaluates on the implementation's trace
+   holds at every step of every trace of the model. *)
+Theorem quota_monitor_accepts_model : forall c ops, 0 < c_ss c ->
+  forall s, In s (trace c (init c) ops) -> p_quota c (op_k (t_op s)) (t_obs s) = Good tt.
+Proof. exact quota_monitor_lemma. Qed.
+Print Assumptions quota_monitor_accepts_model.
+
+(* Non-vacuity: a history that creates two files, fragments the device,
+   fails a write half-way, and ends with everything closed. *)
+Definition ex_cfg := mkCfg 4 6 3 40.
+Definition ex_ops : list op :=
+  [ mkOp (KNew 0 [7; 8]%N 2 false) None None None;
+    mkOp (KNew 1 [] 0 false) None None None;
+    mkOp (KWrite 0 3 [1; 2; 3; 4; 5; 6]%N) None None None;
+    mkOp (KWrite 1 0 [9; 9; 9; 9; 9]%N) None None None;
+    mkOp (KWrite 0 14 [5; 5; 5; 5; 5; 5; 5; 5; 5; 5; 5; 5]%N) (Some (1, 2, false)) None None;
+    mkOp (KTrunc 0 5) None None None;
+    mkOp (KNew 2 [] 30 true) None None None;
+    mkOp (KClose 1) None None None ].
+
+Example ex_reaches_fragmented_state :
+  let st := run ex_cfg (init ex_cfg) ex_ops in
+  a_free (st_al st) = [false; false; true; true; true; true] /\
+  st_remb st = 35%N /\ st_remf st = 2%N /\
+  option_map f_secs (get_file st 0) = Some [1; 2].
+Proof. vm_compute. repeat split. Qed.
+
+Example ex_trace_accepted : trace_ok ex_cfg (trace ex_cfg (init ex_cfg) ex_ops) = true.
+Proof. vm_compute. reflexivity. Qed.
